@@ -361,15 +361,27 @@ def source_env_vars():
         except Exception:
             continue
         scopes = [n for n in ast.walk(tree) if isinstance(n, (ast.FunctionDef, ast.Module))]
+        consts = {t.id: n.value.value for n in tree.body if isinstance(n, ast.Assign) and isinstance(n.value, ast.Constant)
+                  and isinstance(n.value.value, str) for t in n.targets if isinstance(t, ast.Name)}
+
+        def name_of(e):
+            """the variable's name: a literal, or a module-level text constant used in its place"""
+            if isinstance(e, ast.Constant) and isinstance(e.value, str):
+                return e.value
+            if isinstance(e, ast.Name) and e.id in consts:
+                return consts[e.id]
+            return None
         for sc in scopes:
             names = []
             for n in ast.walk(sc):
                 if isinstance(n, ast.Call) and ast.unparse(n.func) in ("os.environ.get", "os.getenv", "environ.get", "getenv") \
-                        and n.args and isinstance(n.args[0], ast.Constant) and isinstance(n.args[0].value, str):
-                    names.append(n.args[0].value)
-                if isinstance(n, ast.Subscript) and ast.unparse(n.value) in ("os.environ", "environ") and \
-                        isinstance(n.slice, ast.Constant) and isinstance(n.slice.value, str):
-                    names.append(n.slice.value)
+                        and n.args and name_of(n.args[0]):
+                    names.append(name_of(n.args[0]))
+                if isinstance(n, ast.Subscript) and ast.unparse(n.value) in ("os.environ", "environ") and name_of(n.slice):
+                    names.append(name_of(n.slice))
+                if isinstance(n, ast.Compare) and len(n.ops) == 1 and isinstance(n.ops[0], (ast.In, ast.NotIn)) and \
+                        ast.unparse(n.comparators[0]) in ("os.environ", "environ") and name_of(n.left):
+                    names.append(name_of(n.left))
             if names and not isinstance(sc, ast.Module):
                 lits = [c.value for c in ast.walk(sc) if isinstance(c, ast.Constant) and isinstance(c.value, str)
                         and 0 < len(c.value) <= 24 and c.value not in names and "\n" not in c.value]
